@@ -6,6 +6,7 @@
 From Coq Require Import QArith Qround ZArith List.
 Import ListNotations.
 Require Import Plinio.Base.Qx Plinio.Base.Round Plinio.Model.Quant Plinio.Model.IntBackend Plinio.Proofs.IntBackend.
+Require Import Plinio.Gen.IntBackendGen Plinio.Proofs.IntBackendGen.
 Open Scope Q_scope.
 
 (* --- binary_search(div, lo, hi, x): the least m in [lo, hi] with x <= m*div, else hi *)
@@ -151,6 +152,136 @@ Example C14_example_requant :
   fq_code 4 6 (6001 # 15000) (3 # 700) 1000 500 = 6%Z /\ dilate 3 [1; 2; 3]%Z = [1; 0; 0; 2; 0; 0; 3]%Z.
 Proof. vm_compute. repeat split. Qed.
 
+(* ================= second tie, by translation: the functions GENERATED from the source of the integer backends
+   (Gen/IntBackendGen.v, rewritten by translator/intbackend2coq.py on every run) compute the hand-written model above, every
+   division / power / dict read / recursion on an evaluated path is defined on the property's domain, and the main sentences of
+   C14 hold of the code as it is now.  bias_of hb B = B when the layer has a bias, 0 otherwise. *)
+
+(* --- utils.binary_search: the recursion ends within log2 (hi - lo + 1) calls and returns the model's value *)
+Theorem C14_generated_binary_search : forall div lo hi x, 0 < div -> (lo <= hi)%Z ->
+  binary_search_gen div lo hi x = binary_search div lo hi x /\ binary_search_ok div lo hi x = true.
+Proof. exact binary_search_gen_eq. Qed.
+
+(* --- the four copies of _integer_approximation: the three loops compute integer_approximation on targets s_w*s_x/s_y, defined
+   as soon as there is a channel, s_y <> 0 and scale_bit >= 1 (MAUPITI: the constants 16 / 32) *)
+Theorem C14_generated_approx_match_conv2d : forall sb' sp s_w s_x s_y bias, s_w <> [] -> ~ s_y == 0 ->
+  approx_MATCHConv2d (S sb') sp s_w s_x s_y bias = (integer_approximation (S sb') sp (map (fun w => w * s_x / s_y) s_w) bias, true).
+Proof. exact approx_MATCHConv2d_eq. Qed.
+Theorem C14_generated_approx_match_linear : forall sb' sp s_w s_x s_y bias, s_w <> [] -> ~ s_y == 0 ->
+  approx_MATCHLinear (S sb') sp s_w s_x s_y bias = (integer_approximation (S sb') sp (map (fun w => w * s_x / s_y) s_w) bias, true).
+Proof. exact approx_MATCHLinear_eq. Qed.
+Theorem C14_generated_approx_maupiti_conv2d : forall s_w s_x s_y bias, s_w <> [] -> ~ s_y == 0 ->
+  approx_MAUPITIConv2d s_w s_x s_y bias = (integer_approximation 16 32 (map (fun w => w * s_x / s_y) s_w) bias, true).
+Proof. exact approx_MAUPITIConv2d_eq. Qed.
+Theorem C14_generated_approx_maupiti_linear : forall s_w s_x s_y bias, s_w <> [] -> ~ s_y == 0 ->
+  approx_MAUPITILinear s_w s_x s_y bias = (integer_approximation 16 32 (map (fun w => w * s_x / s_y) s_w) bias, true).
+Proof. exact approx_MAUPITILinear_eq. Qed.
+Theorem C14_generated_target : forall p clip sx sw, sw * sx / aq_scale p clip == target p clip sx sw.
+Proof. exact target_gen_eq. Qed.
+
+(* int32 overflow guard and declared ranges, of what the code returns (any copy A with its domain of options) *)
+Theorem C14_generated_approx_ranges : forall A dom, is_approx A dom -> forall sb' sp s_w s_x s_y bias scs sh ok,
+  dom (S sb') sp -> s_w <> [] -> ~ s_y == 0 -> A (S sb') sp s_w s_x s_y bias = (Some (scs, sh), ok) ->
+  ok = true /\ length scs = length s_w /\ (sh < sp)%nat /\
+  Forall (fun s => (1 <= s <= pow2 (S sb' - 1))%Z) scs /\
+  Forall (fun bs => (int32_min <= fst bs * snd bs <= int32_max)%Z) (combine bias scs).
+Proof. exact gen_approx_ranges. Qed.
+Theorem C14_generated_approx_raises_only_on_overflow : forall A dom, is_approx A dom -> forall sb' sp s_w s_x s_y bias ok,
+  dom (S sb') sp -> s_w <> [] -> ~ s_y == 0 -> A (S sb') sp s_w s_x s_y bias = (None, ok) ->
+  forall s, (s < sp)%nat -> overflows bias (scales_at (pow2 (S sb' - 1)) (map (fun w => w * s_x / s_y) s_w) s) = true.
+Proof. exact gen_approx_raises. Qed.
+Theorem C14_generated_approx_copies :
+  is_approx approx_MATCHConv2d (fun _ _ => True) /\ is_approx approx_MATCHLinear (fun _ _ => True) /\
+  is_approx (fun _ _ => approx_MAUPITIConv2d) (fun sb sp => sb = 16%nat /\ sp = 32%nat) /\
+  is_approx (fun _ _ => approx_MAUPITILinear) (fun sb sp => sb = 16%nat /\ sp = 32%nat).
+Proof. exact (conj MATCHConv2d_is_approx (conj MATCHLinear_is_approx (conj MAUPITIConv2d_is_approx MAUPITILinear_is_approx))). Qed.
+
+(* --- the layers (__init__ + properties + forward, every path): MATCH = match_requant / match_last with add_bias = int_bias*scale,
+   MAUPITI = maupiti_requant2 (input offset from the INPUT precision) / maupiti_last; all divisions and powers defined *)
+Theorem C14_generated_layers :
+  is_match_layer layer_MATCHConv2d /\ is_match_layer layer_MATCHLinear /\
+  is_maupiti_layer layer_MAUPITIConv2d /\ is_maupiti_layer layer_MAUPITILinear.
+Proof. exact (conj MATCHConv2d_is_match (conj MATCHLinear_is_match (conj MAUPITIConv2d_is_maupiti MAUPITILinear_is_maupiti))). Qed.
+Theorem C14_generated_zero_point : forall hb pi' po' B scale sumw sh,
+  (exists q, fst (zero_point_MAUPITIConv2d hb false (S pi') (S po') B scale sumw sh) = Some q /\
+     q == inject_Z (zero_point2 (pow2 (S pi' - 1)) (pow2 (S po' - 1)) scale (bias_of hb B * scale) sumw sh) /\
+     snd (zero_point_MAUPITIConv2d hb false (S pi') (S po') B scale sumw sh) = true) /\
+  (exists q, fst (zero_point_MAUPITILinear hb false (S pi') (S po') B scale sumw sh) = Some q /\
+     q == inject_Z (zero_point2 (pow2 (S pi' - 1)) (pow2 (S po' - 1)) scale (bias_of hb B * scale) sumw sh) /\
+     snd (zero_point_MAUPITILinear hb false (S pi') (S po') B scale sumw sh) = true).
+Proof. intros. split; [apply zero_point_MAUPITIConv2d_eq | apply zero_point_MAUPITILinear_eq]. Qed.
+Theorem C14_generated_zero_point_last : forall hb pi' p_out B scale sumw sh,
+  (exists q, fst (zero_point_MAUPITIConv2d hb true (S pi') p_out B scale sumw sh) = Some q /\
+     q == inject_Z (zero_point_last (pow2 (S pi' - 1)) scale (bias_of hb B * scale) sumw) /\
+     snd (zero_point_MAUPITIConv2d hb true (S pi') p_out B scale sumw sh) = true) /\
+  (exists q, fst (zero_point_MAUPITILinear hb true (S pi') p_out B scale sumw sh) = Some q /\
+     q == inject_Z (zero_point_last (pow2 (S pi' - 1)) scale (bias_of hb B * scale) sumw) /\
+     snd (zero_point_MAUPITILinear hb true (S pi') p_out B scale sumw sh) = true).
+Proof. intros. split; [apply zero_point_MAUPITIConv2d_last_eq | apply zero_point_MAUPITILinear_last_eq]. Qed.
+Theorem C14_generated_add_bias : forall hb p_in p_out B scale sumw sh,
+  (exists q, fst (add_bias_MATCHConv2d hb false p_in p_out B scale sumw sh) = Some q /\ q == inject_Z (bias_of hb B * scale)) /\
+  (exists q, fst (add_bias_MATCHLinear hb false p_in p_out B scale sumw sh) = Some q /\ q == inject_Z (bias_of hb B * scale)) /\
+  (exists q, fst (add_bias_MATCHLinear hb true p_in p_out B scale sumw sh) = Some q /\ q == inject_Z (bias_of hb B)) /\
+  (forall last, exists q, fst (add_bias_MAUPITIConv2d hb last p_in p_out B scale sumw sh) = Some q /\ q == inject_Z (bias_of hb B * scale)) /\
+  (forall last, exists q, fst (add_bias_MAUPITILinear hb last p_in p_out B scale sumw sh) = Some q /\ q == inject_Z (bias_of hb B * scale)).
+Proof.
+  intros. split; [apply add_bias_MATCHConv2d_eq|]. split; [apply add_bias_MATCHLinear_eq|]. split; [apply add_bias_MATCHLinear_last_eq|].
+  split; intro last; [apply add_bias_MAUPITIConv2d_eq | apply add_bias_MAUPITILinear_eq].
+Qed.
+Theorem C14_generated_pad_value : forall p',
+  fst (pad_MAUPITIConv2d (S p')) == inject_Z (maupiti_pad_value (S p')) /\ snd (pad_MAUPITIConv2d (S p')) = true /\
+  fst (pad_MAUPITIConv2d (S p')) + inject_Z (pow2 p') == 0.
+Proof.
+  intro p'. destruct (pad_MAUPITIConv2d_eq p') as [E O]. split; [exact E|]. split; [exact O|]. rewrite E.
+  rewrite <- inject_Z_plus. rewrite (pad_value_is_zero p'). reflexivity.
+Qed.
+
+(* --- the main sentences, for ANY generated MATCH layer LU and MAUPITI layer LM (Conv2d or Linear copy) *)
+(* integer layer output within the bound of the fake-quantized counterpart's code on the same integer input *)
+Theorem C14_generated_requant_error : forall LU, is_match_layer LU -> forall hb p_in p' clip sx sw B scale sumw sh acc, 0 < clip ->
+  let d := fst (LU hb false p_in (S p') B scale sumw sh acc) - inject_Z (fq_code (S p') clip sx sw (bias_of hb B) acc) in
+  - err_bound (S p') clip sx sw (bias_of hb B) scale sh acc < d < err_bound (S p') clip sx sw (bias_of hb B) scale sh acc.
+Proof. exact gen_requant_error. Qed.
+Theorem C14_generated_requant_error_unsat : forall LU, is_match_layer LU -> forall hb p_in p' clip sx sw B scale sumw sh acc, 0 < clip ->
+  (inject_Z scale / qpow2 sh) * (acc + inject_Z (bias_of hb B)) <= aq_sf (S p') clip * clip ->
+  let d := fst (LU hb false p_in (S p') B scale sumw sh acc) - inject_Z (fq_code (S p') clip sx sw (bias_of hb B) acc) in
+  let e := 1 + qabs (acc + inject_Z (bias_of hb B)) * qabs (inject_Z scale / qpow2 sh - target (S p') clip sx sw) in
+  - e < d < e.
+Proof. exact gen_requant_error_unsat. Qed.
+Theorem C14_generated_match_range : forall LU, is_match_layer LU -> forall hb p_in p' B scale sumw sh acc,
+  0 <= fst (LU hb false p_in (S p') B scale sumw sh acc) <= inject_Z (pow2 (S p') - 1).
+Proof. exact gen_match_range. Qed.
+Theorem C14_generated_maupiti_range : forall LM, is_maupiti_layer LM -> forall hb pi' po' B scale sumw sh acc,
+  inject_Z (- pow2 po') <= fst (LM hb false (S pi') (S po') B scale sumw sh acc) <= inject_Z (pow2 po' - 1).
+Proof. exact gen_maupiti_range. Qed.
+(* zero-point compensation exact: offset layer on offset inputs = unsigned layer - 2^(p_out-1), for any p_in and p_out *)
+Theorem C14_generated_offset_equiv : forall LU LM, is_match_layer LU -> is_maupiti_layer LM -> forall hb pi' po' p_in B scale sumw sumw' sh acc,
+  fst (LM hb false (S pi') (S po') B scale sumw sh (acc - inject_Z (pow2 pi') * inject_Z sumw))
+  == fst (LU hb false p_in (S po') B scale sumw' sh acc) - inject_Z (pow2 po').
+Proof. exact gen_offset_equiv. Qed.
+(* output layers: MATCH output x (s_x*s_w) = real logits; MAUPITI output = scale/2^shift * (acc + B) *)
+Theorem C14_generated_last_match : forall LU, is_match_layer LU -> forall p_in p_out sx sw b scale sumw sh acc,
+  fst (LU true true p_in p_out (bq_int (sx * sw) b) scale sumw sh acc) * (sx * sw) == sx * sw * acc + bq_fq (sx * sw) b.
+Proof. exact gen_last_match_logits. Qed.
+Theorem C14_generated_last_match_fq : forall LU, is_match_layer LU -> forall hb p_in p_out sx sw B scale sumw sh acc,
+  fst (LU hb true p_in p_out B scale sumw sh acc) * (sx * sw) == fq_real sx sw (bias_of hb B) acc.
+Proof. exact gen_last_match. Qed.
+Theorem C14_generated_last_maupiti : forall LM, is_maupiti_layer LM -> forall hb pi' p_out sx sw B scale sumw sh acc,
+  let y := fst (LM hb true (S pi') p_out B scale sumw sh (acc - inject_Z (pow2 pi') * inject_Z sumw)) in
+  y == (inject_Z scale / qpow2 sh) * (acc + inject_Z (bias_of hb B)) /\
+  qabs (y - fq_real sx sw (bias_of hb B) acc) == qabs (acc + inject_Z (bias_of hb B)) * qabs (inject_Z scale / qpow2 sh - sw * sx).
+Proof. exact gen_last_maupiti. Qed.
+
+(* non-vacuity on the generated code *)
+Example C14_generated_example :
+  binary_search_gen (inv_pow2 3) 1 128 (3 # 7) = 4%Z /\
+  approx_MATCHConv2d 16 32 [3 # 7; 5 # 9] (1 # 100) 1 [1000; -2000]%Z = (Some ([8988; 11651]%Z, 21%nat), true) /\
+  approx_MAUPITILinear [3 # 7] (1 # 100) 1 [3000000000]%Z = (None, true) /\
+  Qred (fst (layer_MATCHLinear true false 8 4 1000 8988 0 21 500)) = 6 /\
+  Qred (fst (layer_MAUPITIConv2d true false 2 4 1000 8988 7 21 (500 - 2 * 7))) = (-2 # 1) /\
+  Qred (fst (pad_MAUPITIConv2d 4)) = (-8 # 1).
+Proof. vm_compute. repeat split. Qed.
+
 Print Assumptions C14_binary_search_spec.
 Print Assumptions C14_approx_spec.
 Print Assumptions C14_approx_ranges.
@@ -173,3 +304,25 @@ Print Assumptions C14_last_layer_maupiti_conv.
 Print Assumptions C14_dilated_kernel_equiv.
 Print Assumptions C14_dilated_kernel_length.
 Print Assumptions C14_upstream_dilation_axis1_refuted.
+Print Assumptions C14_generated_binary_search.
+Print Assumptions C14_generated_approx_match_conv2d.
+Print Assumptions C14_generated_approx_match_linear.
+Print Assumptions C14_generated_approx_maupiti_conv2d.
+Print Assumptions C14_generated_approx_maupiti_linear.
+Print Assumptions C14_generated_target.
+Print Assumptions C14_generated_approx_ranges.
+Print Assumptions C14_generated_approx_raises_only_on_overflow.
+Print Assumptions C14_generated_approx_copies.
+Print Assumptions C14_generated_layers.
+Print Assumptions C14_generated_zero_point.
+Print Assumptions C14_generated_zero_point_last.
+Print Assumptions C14_generated_add_bias.
+Print Assumptions C14_generated_pad_value.
+Print Assumptions C14_generated_requant_error.
+Print Assumptions C14_generated_requant_error_unsat.
+Print Assumptions C14_generated_match_range.
+Print Assumptions C14_generated_maupiti_range.
+Print Assumptions C14_generated_offset_equiv.
+Print Assumptions C14_generated_last_match.
+Print Assumptions C14_generated_last_match_fq.
+Print Assumptions C14_generated_last_maupiti.
